@@ -501,6 +501,48 @@ Section Pipeline2.
     apply Q.min_glb; [apply Q.le_max_r|exact M].
   Qed.
 
+  (* the clip keeps an updated bound inside [0, max pilot] *)
+  Lemma ramp_update_range rp mp pp pr ub : 0 <= mp ->
+    0 <= ramp_update rp mp pp pr ub /\ ramp_update rp mp pp pr ub <= mp.
+  Proof.
+    intro H. unfold ramp_update. rewrite anchor_ramp_clip. split; [|apply Q.le_min_r].
+    apply Q.min_glb; [apply Q.le_max_r|exact H].
+  Qed.
+
+  (* every session handed to the estimator has a bound afterwards, keyed by its SESSION id *)
+  Lemma ramp_one_keeps rp st s k : zassoc k st <> None -> zassoc k (ramp_one inf rp st s) <> None.
+  Proof.
+    intro H. unfold ramp_one.
+    set (mp := nthQ (i_maxp inf) (s_station s)).
+    set (st1 := match zassoc (s_id s) st with Some _ => st | None => zassoc_set (s_id s) mp st end).
+    assert (H1 : zassoc k st1 <> None).
+    { unfold st1. destruct (zassoc (s_id s) st); auto. rewrite zassoc_set_spec. destruct (Z.eqb k (s_id s)); [discriminate|auto]. }
+    destruct (zassoc (s_id s) (r_prev_pilot rp)); auto.
+    rewrite zassoc_set_spec. destruct (Z.eqb k (s_id s)); [discriminate|auto].
+  Qed.
+
+  Lemma ramp_one_sets rp st s : zassoc (s_id s) (ramp_one inf rp st s) <> None.
+  Proof.
+    unfold ramp_one.
+    set (mp := nthQ (i_maxp inf) (s_station s)).
+    set (st1 := match zassoc (s_id s) st with Some _ => st | None => zassoc_set (s_id s) mp st end).
+    assert (H1 : zassoc (s_id s) st1 <> None).
+    { unfold st1. destruct (zassoc (s_id s) st) eqn:E; [congruence|]. rewrite zassoc_set_spec, Z.eqb_refl. discriminate. }
+    destruct (zassoc (s_id s) (r_prev_pilot rp)); auto.
+    rewrite zassoc_set_spec, Z.eqb_refl. discriminate.
+  Qed.
+
+  Theorem rampdown_has_bound rp l s : In s l -> exists b, zassoc (s_id s) (rampdown inf rp l) = Some b.
+  Proof.
+    unfold rampdown. generalize (r_store rp).
+    assert (K : forall l st k, zassoc k st <> None -> zassoc k (fold_left (ramp_one inf rp) l st) <> None).
+    { clear. induction l as [|x l IH]; intros st k H; cbn [fold_left]; auto. apply IH. now apply ramp_one_keeps. }
+    induction l as [|x l IH]; intros st I; [destruct I|]. cbn [fold_left].
+    destruct I as [->|I]; [|now apply IH].
+    destruct (zassoc (s_id s) (fold_left (ramp_one inf rp) l (ramp_one inf rp st s))) as [b|] eqn:E; [eauto|].
+    exfalso. revert E. apply K. apply ramp_one_sets.
+  Qed.
+
   Lemma threshold_nonneg mn v : 0 <= mn -> 0 < v -> 0 < period -> 0 <= Pre_threshold mn v 0 0 period.
   Proof.
     intros Hm Hv Hp. rewrite anchor_threshold.
